@@ -95,6 +95,25 @@ def read(path):
         return f.read()
 
 
+def read_contract(relpath):
+    """A .ral / .sol source of REPO without comments and with every function's parameters / local variables carrying the
+    names the extractors' patterns were written against, whenever that is a pure alpha-conversion (tools/alpha.py)."""
+    import alpha
+    return alpha.normalise(read(os.path.join(REPO, relpath)), relpath)
+
+
+def gofold(relpath):
+    """Source text of REPO/<relpath> with every integer-constant expression replaced by its value (tools/gofold: go/types
+    constant folding, so `11*time.Minute`, a named constant holding it, or 660000000000 all read the same).  Falls back to
+    the raw text when the tool cannot run (the extractors then still understand the literal forms)."""
+    path = os.path.join(REPO, relpath)
+    rc, out, dt = sh(["go", "run", ".", os.path.dirname(path), os.path.basename(path)],
+                     cwd=os.path.join(ROOT, "tools", "gofold"), env=dict(GOENV, GOFLAGS=""), timeout=300)
+    if rc != 0 or "package " not in out:
+        return read(path)
+    return out
+
+
 def strip_lean_comments(src):
     # remove /- ... -/ (nested) and -- ... comments; good enough for the forbidden-token scan
     out = []
